@@ -375,6 +375,18 @@ def sorts_stage(ctx, rep, exe, drv):
     run_both(ctx, exe, drv, "loop-sort-attribute", lines, nontrivial=lambda l: "," in l)
 
 
+def depth_stage(ctx, rep, exe):
+    """Observation on the real code only: recursion depth n of Memory::Sort on sorted input (not modelled)."""
+    n = 4000 if not ctx.thorough else 30000
+    lines = ["orddeep %d %d %d" % (n, r, a) for r in (0, 1) for a in (0, 1)]
+    out, faults = core.run_lines(exe, lines)
+    for l, o in zip(lines, out):
+        if o != "ok":
+            rep.fail("sort-stack-depth-on-sorted-input", "Array<SizeT>::Sort on %s: %s" % (l, o), {"line": l, "impl_output": o})
+    ctx.count("sort-depth-observation", len(lines), len(lines), sample={"stream": "sort-depth-observation", "input": lines[0], "impl": out[0]})
+    ctx.notes.append("Memory::Sort recursion depth %d on sorted/reversed input tolerated by the harness build (observation; depth is not modelled)" % n)
+
+
 def run(ctx):
     ctx.gen_constants(["Order"])
     ctx.prove(["Qentem.Props.C15"], THEOREMS, open_statements=OPEN)
@@ -386,6 +398,7 @@ def run(ctx):
     strings_stage(ctx, rep, exe, drv)
     values_stage(ctx, rep, exe, drv)
     sorts_stage(ctx, rep, exe, drv)
+    depth_stage(ctx, rep, exe)
     rep.done()
     ctx.assumptions += [
         "code units modelled as Nat; for the signed `char` build a unit u is ordered as (u+128) mod 256 (stream ordstrs)",
